@@ -11,6 +11,7 @@ volatile uint64_t pushed_done;
 volatile uint64_t pushed_begun;
 
 void vm_init(void) { spsc_fifo_init(&q); }
+void vm_setup(void) { for (int i = 0; i < NPUSH; i++) nodes[i].next = (spsc_node_t*)vm_nondet(); } /* nodes come from malloc / are recycled: link field holds garbage */
 
 void vm_thread_1(void) {
   for (int i = 0; i < NPUSH; i++) {
